@@ -84,3 +84,41 @@ func H02_receiver() {
 	}
 	vrtReach("C02.sequence")
 }
+
+// H02_resume: a QoS 2 exchange that spans a reconnect of a persistent session:
+// PUBLISH and PUBREC on the first connection, which is then cut; the PUBREL
+// arrives on the resumed session's next connection. The stored message is
+// handed on exactly once, at that PUBREL, with its original content.
+func H02_resume() {
+	b := vrtBroker("mockSuccess")
+	in := vrtNewInproc()
+	b.svr.Subscribe("#", 2, &in.fn)
+	c1, _ := b.connect(vrtConnectPkt([]byte("c"), false))
+	id := vrtUint16("id")
+	vrtAssume(id != 0)
+	payload := []byte{vrtByte("payload")}
+	ans := vrtExchange(c1, &specPkt{Typ: specPUBLISH, Flags: 4, ID: id, Topic: []byte("t"), Payload: payload})
+	vrtAssert("C02.exactly_one_ack_with_the_packet_id", vrtBytesEq(ans, []byte{0x50, 2, byte(id >> 8), byte(id)}))
+	vrtAssert("C02.qos2_not_before_pubrel", len(in.take()) == 0)
+	vrtEnd(c1, 1) // network drop
+	vrtAssert("C02.qos2_not_before_pubrel", len(in.take()) == 0)
+	c2, ack := b.connect(vrtConnectPkt([]byte("c"), false))
+	vrtAssert("C02.harness_session_resumed", vrtIsConnack(ack, true, 0))
+	if vrtBool("publish_repeated_first") {
+		// the sender may repeat the PUBLISH with DUP before it goes on
+		ans = vrtExchange(c2, &specPkt{Typ: specPUBLISH, Flags: 4 | 8, ID: id, Topic: []byte("t"), Payload: payload})
+		vrtAssert("C02.exactly_one_ack_with_the_packet_id", vrtBytesEq(ans, []byte{0x50, 2, byte(id >> 8), byte(id)}))
+		vrtAssert("C02.qos2_not_before_pubrel", len(in.take()) == 0)
+	}
+	ans = vrtExchange(c2, &specPkt{Typ: specPUBREL, ID: id})
+	vrtAssert("C02.exactly_one_ack_with_the_packet_id", vrtBytesEq(ans, []byte{0x70, 2, byte(id >> 8), byte(id)}))
+	got := in.take()
+	vrtAssert("C02.handed_over_count", len(got) == 1)
+	if len(got) == 1 {
+		vrtAssert("C02.handed_over_content", vrtAnd(vrtBytesEq(got[0].Topic, []byte("t")), vrtBytesEq(got[0].Payload, payload)))
+	}
+	ans = vrtExchange(c2, &specPkt{Typ: specPUBREL, ID: id})
+	vrtAssert("C02.exactly_one_ack_with_the_packet_id", vrtBytesEq(ans, []byte{0x70, 2, byte(id >> 8), byte(id)}))
+	vrtAssert("C02.handed_over_count", len(in.take()) == 0)
+	vrtReach("C02.resumed_exchange")
+}
